@@ -690,6 +690,59 @@ func checkRecordConsumers(p *core.Prog, r *core.Result) {
 				}
 			}
 		})
+		need2 := 2
+		if len(oks) < 2 {
+			// the two assertions may live in a helper that reports their conjunction:
+			// oldM, newM, ok := bothMappings(old, new)
+			for _, c := range core.Calls(dd) {
+				call, isCall := c.(*ssa.Call)
+				h := core.Callee(c)
+				if !isCall || h == nil || h.Pkg != dd.Pkg || h.Blocks == nil {
+					continue
+				}
+				var hoks []ssa.Value
+				core.Instrs(h, func(in ssa.Instruction) {
+					ta, ok := in.(*ssa.TypeAssert)
+					if !ok || !ta.CommaOk || !strings.HasSuffix(ta.AssertedType.String(), "starlark.IterableMapping") {
+						return
+					}
+					if _, isPrm := ta.X.(*ssa.Parameter); !isPrm {
+						return
+					}
+					for _, ref := range *ta.Referrers() {
+						if e, ok := ref.(*ssa.Extract); ok && e.Index == 1 {
+							hoks = append(hoks, e)
+						}
+					}
+				})
+				if len(hoks) < 2 {
+					continue
+				}
+				// the boolean result: true only where both assertions succeeded
+				res := h.Signature.Results()
+				for bi := 0; bi < res.Len(); bi++ {
+					if b, ok := res.At(bi).Type().Underlying().(*types.Basic); !ok || b.Kind() != types.Bool {
+						continue
+					}
+					conj := true
+					for _, ret := range core.ReturnsOf(h) {
+						if tv, isConst := core.ConstBool(ret.Results[bi]); isConst && !tv {
+							continue
+						}
+						for _, ho := range hoks {
+							if !p.FactsAt(ret).Find(func(cv ssa.Value, v bool) bool { return cv == ho && v }) {
+								conj = false
+							}
+						}
+					}
+					if conj {
+						if e := extractOf(call, bi); e != nil {
+							oks, need2 = []ssa.Value{e}, 1
+						}
+					}
+				}
+			}
+		}
 		bothTrue := func(fs core.FactSet) bool {
 			n := 0
 			for _, okv := range oks {
@@ -697,9 +750,9 @@ func checkRecordConsumers(p *core.Prog, r *core.Result) {
 					n++
 				}
 			}
-			return len(oks) >= 2 && n == len(oks)
+			return len(oks) >= need2 && n == len(oks)
 		}
-		holdsBelief := len(oks) >= 2
+		holdsBelief := len(oks) >= need2
 		var at ssa.Instruction
 		for _, ret := range core.ReturnsOf(dd) {
 			vals := core.RetVals(ret)
